@@ -4,20 +4,22 @@ Import ListNotations.
 Open Scope Z_scope.
 
 (* Send kinds: 0 stanza, 1 stanza.SMRequest, 2 stanza.SMAnswer, 3 *stanza.SMRequest, 4 *stanza.SMAnswer
-   (a pointer is the same packet).  Raw kinds (the harness's reading of the string's first element):
-   0 stanza, 1 {urn:xmpp:sm:3}r, 2 {urn:xmpp:sm:3}a. *)
+   (a pointer is the same packet), 5 anything that is not a stanza (a nil packet).  Raw kinds (the harness's reading of the string's first element):
+   0 stanza, 1 {urn:xmpp:sm:3}r, 2 {urn:xmpp:sm:3}a, 5 anything else. *)
 Definition dec_kind (k : Z) : option pkind :=
   if k =? 0 then Some KStanza else if (k =? 1) || (k =? 3) then Some KRequest
-  else if (k =? 2) || (k =? 4) then Some KAnswer else None.
+  else if (k =? 2) || (k =? 4) then Some KAnswer else if k =? 5 then Some KOther else None.
 
 Definition dec_op (x : sx) : option aop :=
   match x with
   | SL [SZ 0; SZ k; SS d] => do kd <- dec_kind k; Some (ASend kd d)
   | SL [SZ 1; SS d] => Some (ASendRaw KStanza d)
-  | SL [SZ 1; SZ k; SS d] => if k <=? 2 then do kd <- dec_kind k; Some (ASendRaw kd d) else None
+  | SL [SZ 1; SZ k; SS d] => if (k <=? 2) || (k =? 5) then do kd <- dec_kind k; Some (ASendRaw kd d) else None
   | SL [SZ 2; SZ h] => Some (AAck h)
   | SL [SZ 3; SZ k] => Some (AAck (2 ^ 63 + k))     (* h beyond the signed range *)
   | SL [SZ 4; SZ k; SS d] => do kd <- dec_kind k; Some (ARefused kd d)
+  | SL [SZ 11] => Some AFailedAttempt
+  | SL [SZ 12] => Some AResumed
   | SL [SZ 5; SZ g] => Some (AEnabled (negb (g =? 0)))   (* <enabled/>: does its resume attribute read as true *)
   | SL [SZ 6; SZ h; SZ j] => if j <? 0 then None else Some (AAckRefused h (Z.to_nat j))
   | SL [SZ 7; SZ k; SZ j] => if j <? 0 then None else Some (AAckRefused (2 ^ 63 + k) (Z.to_nat j))
